@@ -98,6 +98,10 @@ SCALAR_LITERALS = [
     'hex("zz")', 'hex("abc")', 'b64("@@@@")', 'b64("a")', 'Bin()', 'Bin("")', 'Bin(text/plain)', 'Bin("text/plain")',
     '@', '@a b', '@a "d"', '@a "d', '"\\u12"', '"\\uD800"', '"\\q"', '`a\\`', '``', '[', '[1,', '[1,,2]', '{a:}', '{a b:1}',
     '{A}', '<<', '<<>>', 'T', 'F', 'true', 'N', 'NA', 'M', 'R', 'Foo("x")', 'foo("x")', '9Foo("x")',
+    # every escape the URI grammar has, one by one and all together; the string escapes; escapes it does not have
+    '`a\\:b`', '`a\\/b`', '`a\\?b`', '`a\\#b`', '`a\\[b`', '`a\\]b`', '`a\\@b`', '`a\\&b`', '`a\\=b`', '`a\\;b`',
+    '`a\\`b`', '`a\\\\b`', '`\\:\\/\\?\\#\\[\\]\\@\\&\\=\\;`', '`\\u0041\\u00e9`', '`a\\$b`', '`a\\"b`', '`a\\nb`', '`a\\xb`',
+    '"\\b\\f\\n\\r\\t\\"\\\\\\$"', '"\\u0041\\U0041"', '"\\:"', '"\\/"', '"\\`"', "\"\\'\"",
 ]
 
 _W = {}
